@@ -116,6 +116,7 @@ def run_case(case: Dict[str, Any], ctx) -> None:
         ctx.violation(key("scale-factors-differ-between-draws"), f"{A.scale_trace} vs {B.scale_trace} vs {C.scale_trace}", cfg=cfg)
     stol = 1e-11 if dtype == torch.float64 else 2 * tol  # fitted scalars of tiny low-precision tensors are noisy
     any_nonzero = False
+    extras_by_name: Dict[str, Any] = {}
     # (float32 with extreme data magnitudes - a saturated softmax, a norm of tiny values - is judged like the low-precision dtypes:
     # against what PyTorch's own op loses on the very same draw)
     lowp = dtype in (torch.bfloat16, torch.float16) or (dtype == torch.float32 and bool(cfg.get("_mags")))
@@ -184,6 +185,7 @@ def run_case(case: Dict[str, Any], ctx) -> None:
             rho = min(1.0, float(fr_.grads_r[name].abs().max()) / big_) if fr_.grads_r[name].numel() else 1.0
             return 4 * _EPS[case["dtype"]] / max(rho, 1e-6)
         extra = {"A": cancel(A), "B": cancel(B), "C": cancel(C)}
+        extras_by_name[name] = (red, extra["A"])
         for b, r, tag in zip(bs, rs, "ABC"):
             if r > tol and lowp:
                 # low precision: is the deviation above what PyTorch's own op suffers on these very inputs?
@@ -218,7 +220,7 @@ def run_case(case: Dict[str, Any], ctx) -> None:
         if R.u_exc is None and R.ref_exc is None:
             for name, b in A.b.items():
                 rb = R.b.get(name)
-                if b is not None and rb is not None and not rel_close(b, rb, 2 * tol + 8 * noise_of("A", name)):
+                if b is not None and rb is not None and not rel_close(b, rb, 2 * tol * extras_by_name.get(name, (1.0, 0.0))[0] + extras_by_name.get(name, (1.0, 0.0))[1] + 8 * noise_of("A", name)):
                     ctx.violation(key(f"grad-scalar-differs-from-float64:{name}"), f"{case['dtype']}: {b!r}; float64: {rb!r}", cfg=cfg)
     if any_nonzero:
         ctx.nontrivial(sig_of(case))
